@@ -56,7 +56,7 @@ def gen_scenario(rng, sid):
     mods = list(w.mods)
     init = [{'op': 'fs', 'kind': 'write', 'path': p, 'content': c, 'mt': MT0} for p, c in sorted(w.files.items())]
     nscripts = rng.randint(3, 6)
-    env = rng.choice(['default', 'default', 'explicit'])
+    env = rng.choice(['default', 'default', 'explicit', 'mixed'])
     mode = rng.choice(['sequential', 'sequential', 'overlap'])
     scripts = []
     for j in range(nscripts):
@@ -69,9 +69,16 @@ def gen_scenario(rng, sid):
                         'path': ('buf%d.py' % j) if pathed else None})
     ops = []
 
+    envs = {}
+    # a new Project per Script (what an editor does that builds Script(code, path=...) without a
+    # project): the environment then comes from the 10-minute default-environment cache
+    fresh = rng.random() < 0.5
+
     def mk_script(s):
+        # 'mixed': two environments (two helper processes) alive side by side
+        e = env if env != 'mixed' else envs.setdefault(s['sid'], rng.choice(['default', 'explicit']))
         return {'op': 'script', 'sid': s['sid'], 'code': s['code'], 'path': s['path'],
-                'env': env, 'project': {'path': '.'}}
+                'env': e, 'project': {'path': '.', 'fresh': True} if fresh else {'path': '.'}}
     if mode == 'sequential':
         for s in scripts:
             ops.append(mk_script(s))
@@ -83,7 +90,7 @@ def gen_scenario(rng, sid):
                 ops.append({'op': 'gc'})
             if rng.random() < 0.25:
                 ops.append({'op': 'census'})
-            if rng.random() < 0.12:
+            if rng.random() < (0.35 if fresh else 0.1):
                 ops.append({'op': 'advance', 'ns': rng.choice([601, 700, 5]) * 10**9})
     else:
         queue = []
@@ -194,8 +201,9 @@ def judge(case, ref, run):
     if len(run.events) != len(ops) or len(ref.events) != len(ops):
         return 'harness_error', None, {'why': 'event count', 'n': [len(ops), len(ref.events), len(run.events)]}, stats
 
-    pending = False          # a death the host has not yet observed
-    doomed = set()           # sids bound to a dead generation
+    dead = set()             # helper generations that have died
+    pending = set()          # ... and whose death the host has not observed yet
+    bound = {}               # sid -> generation index the Script is bound to
     live = set()
     failing_after = collections.OrderedDict()
     problems = []
@@ -210,22 +218,24 @@ def judge(case, ref, run):
         res, refres = ev.get('res'), rv.get('res')
         if ev.get('harness_error'):
             return 'harness_error', None, {'op': i, 'err': ev['harness_error']}, stats
-        if idle:
-            stats['deaths'] += len(idle)
-            pending = True
+        for f in idle:
+            stats['deaths'] += 1
+            dead.add(f['gen'])
+            pending.add(f['gen'])
+        for f in inflight:
+            stats['deaths'] += 1
+            dead.add(f['gen'])          # observed at once: the host is blocked on this request
+        for g in ev.get('on_dead_gens') or []:
+            pending.discard(g)
         if kind == 'script':
             live.add(op['sid'])
-            if pending:
-                doomed.add(op['sid'])
-        observed_here = False
-        if inflight:
-            stats['deaths'] += len(inflight)
-            observed_here = True
-        if pending and ev.get('on_dead'):
-            observed_here = True
-        if observed_here:
-            doomed |= live
-            pending = False
+            if 'bound_gen' in ev:
+                bound[op['sid']] = ev['bound_gen']
+                if ev['bound_gen'] in dead and ev['bound_gen'] not in pending and not inflight:
+                    # the host knew that this helper was dead and still bound a new Script to it
+                    problems.append(('no_replacement', {'op': i, 'sid': op['sid'], 'gen': ev['bound_gen']}))
+        observed_here = bool(inflight) or bool(ev.get('on_dead'))
+        doomed = {sid for sid, g in bound.items() if g in dead}
         if kind in ('script', 'probe'):
             sid = op['sid']
             if is_exc(refres, 'RecursionError') or is_exc(res, 'RecursionError'):
@@ -249,12 +259,12 @@ def judge(case, ref, run):
                         any(f.get('fn') == '_get_info' for f in inflight)
                     problems.append(('wrong_exception:%s%s' % (res[1], '@handshake' if handshake else ''), where))
                     continue
-                if sid not in doomed and not observed_here:
+                if sid not in doomed and not (observed_here and kind == 'script'):
                     problems.append(('no_recovery', where))
                 else:
                     failing_after[sid] = True
             else:
-                if sid in doomed or observed_here:
+                if sid in doomed:
                     problems.append(('silent_divergence', where))
                 else:
                     problems.append(('no_recovery_divergence', where))
@@ -416,12 +426,12 @@ class C14(base.Engine):
             # collected: their deletion requests are pending when the death is discovered
             i, j = r.choice(batch)
             ops.insert(j, {'op': 'gc'})         # the discarded Scripts are finalised before anybody notices the death
-            ops.insert(i, {'op': 'kill_helper'})
+            ops.insert(i, {'op': 'kill_helper', 'pick': r.randint(0, 3)})
         elif s['mode'] == 'lifecycle' or kind < 0.45:
             faults.append(one_fault())
         elif kind < 0.6:
             pos = r.randrange(len(ops))
-            ops.insert(pos, {'op': 'kill_helper'})
+            ops.insert(pos, {'op': 'kill_helper', 'pick': r.randint(0, 3)})
         elif kind < 0.8:
             # two or three deaths, later ones land in the recovered session
             k = 1
@@ -437,7 +447,7 @@ class C14(base.Engine):
             faults.append(v)
         else:
             pos = r.randrange(len(ops))
-            ops.insert(pos, {'op': 'kill_helper'})
+            ops.insert(pos, {'op': 'kill_helper', 'pick': r.randint(0, 3)})
             faults.append(one_fault())
         if r.random() < 0.3:
             ops.insert(r.randrange(len(ops)), {'op': 'gc'})
